@@ -39,6 +39,11 @@ vars == <<syms, lx>>
 SymChars ==
   [ a |-> <<97>>, b |-> <<98>>, r |-> <<114>>, f |-> <<102>>, u |-> <<117>>,
     R |-> <<82>>, F |-> <<70>>, B |-> <<66>>,
+    \* two-letter string prefixes in both orders and every case mix, one symbol each (as a
+    \* text they are identifiers too: the automaton decides when the next character comes)
+    rf |-> <<114, 102>>, rF |-> <<114, 70>>, Rf |-> <<82, 102>>, RF |-> <<82, 70>>,
+    fr |-> <<102, 114>>, fR |-> <<102, 82>>, Fr |-> <<70, 114>>, FR |-> <<70, 82>>,
+    Rb |-> <<82, 98>>, bR |-> <<98, 82>>, BR |-> <<66, 82>>,
     d |-> <<49>>,            \* digit 1
     ue |-> <<233>>,          \* e-acute: non-ASCII identifier character
     sp |-> <<32>>, tab |-> <<9>>, nl |-> <<10>>, semi |-> <<59>>,
